@@ -150,8 +150,8 @@ Section AbstractCopy.
   (* every byte moved by a burst is a byte of one element, at its source / destination address *)
   Lemma burst_point b x : In b bs -> 0 <= x < b_len b ->
     exists d k, valid d E /\ 0 <= k < el /\ b_src b + x = SA d k /\ b_dst b + x = DA d k.
-  Proof.
-    intros Hb Hx. apply Hbs in Hb as [dr [Hvr ->]]. unfold b_len, b_src, b_dst in *. cbn [fst snd] in *.
+  Proof using Hperm Hchain Hunit Hel Hbs.
+    clear Hinj Hdisj. intros Hb Hx. apply Hbs in Hb as [dr [Hvr ->]]. unfold b_len, b_src, b_dst in Hx |- *. cbn [fst snd] in Hx |- *.
     pose proof (chain_bprod_pos _ _ Hchain) as Hpos.
     assert (Hq : 0 <= x / el < bprod C).
     { split; [apply Z.div_pos; lia|]. apply Z.div_lt_upper_bound; lia. }
@@ -208,7 +208,7 @@ Section AbstractCopy.
   Theorem abstract_footprint b x : In b bs -> 0 <= x < b_len b ->
     (exists d k, valid d E /\ 0 <= k < el /\ b_src b + x = SA d k) /\
     (exists d k, valid d E /\ 0 <= k < el /\ b_dst b + x = DA d k).
-  Proof.
+  Proof using Hperm Hchain Hunit Hel Hbs.
     intros Hb Hx. destruct (burst_point b x Hb Hx) as [d [k [Hv [Hk [E1 E2]]]]].
     split; exists d, k; auto.
   Qed.
